@@ -150,6 +150,10 @@ var c01Twins = [][]string{
 	// what the process remembers about (type, name) must not depend on which of the two it met first
 	{"{{ acctV.Greeting }}|{{ acctV.Name }}", "{{ acctP.Greeting }}|{{ acctP.Name }}", "{{ acctV.Label }}", "{{ acctP.Label }}|{{ acctP.Greeting }}", "{% for a in accts %}{{ a.Greeting }}{{ a.Label }};{% endfor %}", "{% for a in acctPs %}{{ a.Greeting }}{{ a.Label }};{% endfor %}"},
 	{"{{ gmap|keys|join(',') }}", "{{ gmap|merge({'z': 26})|keys|join(',') }}", "{{ gmap.list|sort|join }}|{{ gmap.list|join }}", "{{ gmap.list|join }}", "{% for k, v in gmap %}{{ k }};{% endfor %}", "{{ gmap|json_encode }}"},
+	// a sandboxed include whose partial includes another one (the sandboxed context opens a child context), followed by plain
+	// includes two levels deep whose innermost template uses filters outside the policy (a flag left in a pooled context and
+	// handed on to the contexts cloned from it)
+	{"[{% include 'sbx_nest' sandboxed %}]", "{% include 'plain_outer' %}", "[{% include 'sbx_nest' sandboxed %}]{% include 'plain_mid' %}", "{% include 'plain_outer' %}{{ 'x y'|url_encode }}", "<{% include 'plain_mid' %}>"},
 }
 
 func (p *c01) gen(seed uint64, idx int) *c01History {
@@ -160,6 +164,10 @@ func (p *c01) gen(seed uint64, idx int) *c01History {
 		h.srcs[k] = v
 	}
 	h.srcs["sbx_part"] = "{{ 'Part'|lower }}"
+	h.srcs["sbx_nest"] = "{% include 'sbx_part' %}{{ 'N'|lower }}{% include 'sbx_part' %}"
+	h.srcs["plain_outer"] = "<{% include 'plain_mid' %}>"
+	h.srcs["plain_mid"] = "({% include 'plain_in' %})"
+	h.srcs["plain_in"] = "{{ 'a b'|url_encode }}{{ [3, 1]|sort|join }}"
 	h.srcs["sbx_url"] = "{{ 'a b'|url_encode }}"
 	h.srcs["sbx_strip"] = "{{ '<b>x</b>'|striptags }}{{ max(1, 2) }}"
 	h.srcs["sbx_upper"] = "{{ 'up'|upper }}"
